@@ -49,3 +49,9 @@ import pipeline as _pl
 LEAN_MODULES = LEAN_MODULES + [m for m in _pl.LEAN_MODULES2 if m not in LEAN_MODULES]
 THEOREMS = THEOREMS + [t for t in _pl.THEOREMS2.get(ID, []) if t not in THEOREMS]
 GEN = GEN + [g for g in _pl.GEN if g not in GEN]
+
+# ---- the quantity-operator closures of register_quantities_op (f, left_is_number, right_is_number for + - * / and the six
+# comparisons) TRANSLATED from the source (Gen/Bodies.lean) are proved equal to the hand-written model bodies (Props/Bodies.lean)
+LEAN_MODULES = LEAN_MODULES + [m for m in _pl.BODIES_MODULES if m not in LEAN_MODULES]
+THEOREMS = THEOREMS + [t for t in _pl.bodies_theorems(("Quantity",)) if t not in THEOREMS]
+GEN = GEN + [g for g in _pl.BODIES_GEN if g not in GEN]
